@@ -169,10 +169,31 @@ fn c06_converge() {
     } else {
         vec![op1, op2, op3]
     };
+    // thorough tier: a fourth operation (a write on top of the second one, by another writer)
+    let pool_size: usize = std::env::var("C06_POOL").ok().and_then(|v| v.parse().ok()).unwrap_or(3);
+    let mut pool = pool;
+    if pool_size >= 4 && !same_entry {
+        let (_h4, op4) = op_for(addr, &mut crdt, b"e4", &[_h2].into_iter().collect(), 2);
+        pool.push(op4);
+    }
     // replicas A, B receive the pool in two (symbolically chosen) orders, with one duplicate delivery
-    let orders: Vec<Vec<usize>> = vec![vec![0, 1, 2], vec![0, 2, 1], vec![1, 0, 2], vec![1, 2, 0], vec![2, 0, 1], vec![2, 1, 0]];
-    let oa = orders[choice(6)].clone();
-    let ob = orders[choice(6)].clone();
+    fn perms(n: usize) -> Vec<Vec<usize>> {
+        if n == 0 {
+            return vec![vec![]];
+        }
+        let mut out = vec![];
+        for p in perms(n - 1) {
+            for i in 0..=p.len() {
+                let mut q = p.clone();
+                q.insert(i, n - 1);
+                out.push(q);
+            }
+        }
+        out
+    }
+    let orders: Vec<Vec<usize>> = perms(pool.len());
+    let oa = orders[choice(orders.len())].clone();
+    let ob = orders[choice(orders.len())].clone();
     let mut a = reg.clone();
     let mut b = reg.clone();
     for i in &oa {
